@@ -51,6 +51,31 @@ CHECKS.update({
          "checked for executed T-states = frames x frame length + offset and interrupts = frames."),
    note="Trusted: TLC, the clock accessor hook, Z80.tla. Programs are three fixed loops; start times and slicings are random."),
 })
+CHECKS.update({
+ "C10": dict(
+   category="model_checking", design_ref="4 (C10)", technique="TLC cross-check of the LD-BYTES transcription + TLC trace validation of fast-load requests on the real emulator",
+   text=("Tape.tla gives LD-BYTES twice: as the byte-by-byte run of the ROM listing and as a closed form; TLC checks them equal (and equal to the "
+         "property's one-line success rule on its regular domain) over 30k exhaustive small cases. The real emulator then serves sequences of requests "
+         "from fast-loaded random TAP images (buffer-boundary lengths, bad checksums, truncated blocks, LOAD/VERIFY, flag mismatch, DE quirks, ROM and "
+         "wrap-around destinations, 48K/128K, requests past the end) and TapeTrace judges carry, IX, DE and the destination memory with the tape "
+         "cursor as spec state."),
+   note="Trusted: TLC, my reading of the ROM routine (checked against the ROM bytes at design time), the harness' caller stub. Sampling over tapes/requests."),
+ "C11": dict(
+   category="model_checking", design_ref="4 (C11/C12)", technique="TLC exhaustive scaled player model + TLC trace validation of every EAR edge of real tapes + real-time ROM loads",
+   text=("The statement-shaped observer of Tape.tla accepts exactly the standard waveform (pilot count by flag byte, sync, two pulses per bit MSB first, "
+         "pause, every pulse within [nominal, nominal+32]). MC_Tape drives the implementation-shaped player through every partition of time into steps on "
+         "scaled constants; on the real player whole tapes are played with random 0..16 T steps and every edge is fed to the same observer with the real "
+         "numbers. The ROM's own LD-BYTES is run in real emulated time against playing tapes and judged by the same LdBytes as C10."),
+   note="Trusted: TLC, observer (statement-shaped), the Tap re-export hook. Pause tolerance 0.5-2 s is my reading of 'about one second'."),
+ "C12": dict(
+   category="model_checking", design_ref="4 (C11/C12)", technique="TLC exhaustive interleaving of deck commands on the scaled player model + TLC trace validation of random command histories",
+   text=("MC_Tape interleaves up to 6 (thorough 9) play/stop/rewind commands with time steps at every point of the scaled waveform; the observer "
+         "measures pulses in playing time, must keep matching across stop/play, restarts after rewind/auto-stop, and the level must be frozen while "
+         "stopped; running out must have decoded every block once. The same is validated on the real player for random command histories at every "
+         "phase of real tapes. TLC found play..stop;stop;play and rewind-with-stale-state on the as-is model (MC_Tape_cmds_asis.cfg); both were "
+         "reproduced on the real code and fixed."),
+   note="Trusted: TLC, the observer, the harness' notion of playing time (deck not stopped before the call). Scaled model: 3 tapes of 1-3 blocks."),
+})
 NOT_YET = {}
 
 HOOK_COMMITS = ["71990aa"]
